@@ -46,6 +46,21 @@ def gen_cfgs(ctx, n):
         cfg.ops = (['f1'] * cfg.accum + ['s']) * iters
         cfg.spike = (rng.randrange(cfg.world), rng.randrange(iters * cfg.accum))
         cfgs.append(cfg)
+    # half-precision second-order data (inv_dtype=bfloat16): every tensor of a collective has the dtype its peers expect
+    # (only the operation streams are compared here, never values)
+    for _ in range(max(4, n // 12)):
+        world = rng.choice([2, 4])
+        if rng.random() < 0.6:
+            # ... in particular the pre-divided eigenvalue products, which only exist with co-located factors
+            cfg = kfacsim.Config(rng, world=world, k=rng.choice([k for k in (2, 4) if world % k == 0]),
+                                 method='eigen', colocate=True, prediv=True)
+        else:
+            cfg = kfacsim.Config(rng, world=world)
+        cfg.inv16 = True
+        cfg.ops = (['f1'] * cfg.accum + ['s']) * rng.randrange(1, 4)
+        if rng.random() < 0.5:
+            cfg.ops += ['l11'] + ['f1'] * cfg.accum + ['s']
+        cfgs.append(cfg)
     while len(cfgs) < n:
         cfg = kfacsim.Config(rng)
         whole = rng.random() < 0.8
